@@ -1189,7 +1189,16 @@ class PEval:
                             tgt = tb
                     allowed = {tgt if tgt is not None else t["otherwise"]}
                 elif self.assume:
-                    allowed = self.assume(body, b, t, body.expr_of_operand(t["op"]))
+                    ex = body.expr_of_operand(t["op"])
+                    allowed = self.assume(body, b, t, ex)
+                    fn_first = getattr(self.assume, "first_next", None)
+                    if allowed is None and fn_first is not None and ex[0] == "discr" and strip(ex[1])[0] == "call" and \
+                            strip(ex[1])[1] == "std::iter::Iterator::next":
+                        # optional knowledge about the *first* element request of a loop on this path (e.g. "the collection is
+                        # not empty"): a per-path marker records that this loop head was passed before
+                        marker = -1000 - b
+                        allowed = fn_first(body, b, t, ex, marker not in env)
+                        env[marker] = ("int", 1)
                 if allowed is not None:
                     succs = [s for s in succs if s in allowed]
             envt2 = tuple(sorted(env.items()))
